@@ -3,6 +3,7 @@ package c09
 
 import (
 	"fmt"
+	"net/http"
 	"net/http/httptest"
 	"strings"
 	"testing"
@@ -230,3 +231,126 @@ func propMiddleware(t *rapid.T) {
 }
 
 func TestPropMiddleware(t *testing.T) { rapid.Check(t, propMiddleware) }
+
+// propHooks: the hook is whatever Router.OnPanic holds when the panic happens.  Histories over {a request whose handler
+// panics - a native handler or a generic http.Handler wrapped by WrapHTTPHandler/WrapHTTPHandlerFunc -, a plain
+// request, replacing the hook by another one, removing it, a request dispatched on a context the application owns
+// (Init + HandleContext)}.  Oracle: with a hook installed the panic does not leave the dispatch, exactly the
+// CURRENT hook runs once and sees the thrown value, and its status is the response; without a hook the thrown value
+// reaches the caller unchanged; plain requests answer 200 "fine" throughout and are never served with the
+// application's own context.
+func propHooks(t *rapid.T) {
+	ev.Case()
+	r := rux.New()
+	var thrown any
+	kind := rapid.SampledFrom(chain.PanicKinds).Draw(t, "panicValue")
+	boom := func() { thrown = chain.PanicKind(chain.Op{N: kind, S: "x"}); panic(thrown) }
+	switch rapid.IntRange(0, 2).Draw(t, "panickingHandlerKind") {
+	case 0:
+		r.GET("/boom", func(c *rux.Context) { boom() })
+	case 1:
+		r.GET("/boom", rux.WrapHTTPHandler(http.HandlerFunc(func(http.ResponseWriter, *http.Request) { boom() })))
+		ev.Class("panic-in-a-wrapped-http.Handler")
+	default:
+		r.GET("/boom", func(c *rux.Context) { c.WriteString("unreachable") }, rux.WrapHTTPHandlerFunc(func(http.ResponseWriter, *http.Request) { boom() }))
+		ev.Class("panic-in-a-wrapped-http.Handler")
+	}
+	var lastCtx *rux.Context
+	r.GET("/ok", func(c *rux.Context) { lastCtx = c; c.WriteString("fine") })
+	ran := map[int]int{}
+	var seen any
+	mkHook := func(id int) rux.HandlerFunc {
+		return func(c *rux.Context) {
+			ran[id]++
+			seen, _ = c.Get(rux.CTXRecoverResult)
+			c.SetStatus(500 + id)
+		}
+	}
+	cur := 0 // 0: no hook
+	if rapid.Bool().Draw(t, "hookAtStart") {
+		cur = 1
+		r.OnPanic = mkHook(1)
+	}
+	nextID := 2
+	owned := &rux.Context{}
+	steps := rapid.SliceOfN(rapid.SampledFrom([]string{"boom", "boom", "ok", "ok", "replace-hook", "remove-hook", "boom-on-owned-context", "ok-on-owned-context"}), 3, 10).Draw(t, "steps")
+	for i, step := range steps {
+		ctx := fmt.Sprintf("step %d (%s) of %v, hook in place: #%d, panic value kind %d", i, step, steps, cur, kind)
+		switch step {
+		case "replace-hook":
+			cur = nextID
+			nextID++
+			r.OnPanic = mkHook(cur)
+			ev.Class("hook-replaced-after-use")
+			continue
+		case "remove-hook":
+			cur, r.OnPanic = 0, nil
+			continue
+		}
+		before := map[int]int{}
+		for k, v := range ran {
+			before[k] = v
+		}
+		seen, thrown, lastCtx = nil, nil, nil
+		rec := httptest.NewRecorder()
+		path := "/ok"
+		if strings.HasPrefix(step, "boom") {
+			path = "/boom"
+		}
+		req := httptest.NewRequest("GET", path, nil)
+		var escaped any
+		func() {
+			defer func() { escaped = recover() }()
+			if strings.HasSuffix(step, "owned-context") {
+				owned.Init(rec, req)
+				r.HandleContext(owned)
+			} else {
+				r.ServeHTTP(rec, req)
+			}
+		}()
+		ev.Eval()
+		if path == "/ok" {
+			if escaped != nil || rec.Code != 200 || rec.Body.String() != "fine" {
+				t.Fatalf("plain request answered %d %q escaped=%v: %s", rec.Code, rec.Body.String(), escaped, ctx)
+			}
+			if !strings.HasSuffix(step, "owned-context") && lastCtx == owned {
+				t.Fatalf("a ServeHTTP request was served with the context the application owns: %s", ctx)
+			}
+			continue
+		}
+		for id, n := range ran {
+			want := before[id]
+			if id == cur {
+				want++
+			}
+			if n != want {
+				t.Fatalf("hook #%d ran %d times for this request (hook in place: #%d): %s", id, n-before[id], cur, ctx)
+			}
+		}
+		if cur == 0 {
+			if escaped == nil || escaped != thrown {
+				t.Fatalf("without a hook the thrown value %v must reach the caller, got %v: %s", thrown, escaped, ctx)
+			}
+			ev.Class("panic-without-hook")
+			continue
+		}
+		if escaped != nil {
+			t.Fatalf("the panic left the dispatch although a hook is installed (%v): %s", escaped, ctx)
+		}
+		if ran[cur] != before[cur]+1 {
+			t.Fatalf("the current hook #%d did not run: %s", cur, ctx)
+		}
+		if seen != thrown {
+			t.Fatalf("the hook saw %v under CTXRecoverResult, thrown was %v: %s", seen, thrown, ctx)
+		}
+		if rec.Code != 500+cur {
+			t.Fatalf("status %d, the current hook sets %d: %s", rec.Code, 500+cur, ctx)
+		}
+		ev.Class("panic-with-hook")
+		if cur >= 2 {
+			ev.NonTrivial(ctx, func() string { return ctx })
+		}
+	}
+}
+
+func TestPropHooks(t *testing.T) { rapid.Check(t, propHooks) }
